@@ -208,6 +208,9 @@ pub fn gen_case(c: &mut Chooser, op: &str, prop: &str) -> CaseSpec {
     // "merge+deep": larger configurations (more members, longer scripts, longer schedules, deeper
     // trees); "merge+wide": configurations beyond every small bound (dozens of members, hundreds
     // of inner sources or items, long synchronous pull chains)
+    if op == "merge+huge" {
+        return gen_huge_merge(c);
+    }
     if let Some(base) = op.strip_suffix("+deep") {
         gen_case_full(c, base, prop, false, true, false)
     } else if let Some(base) = op.strip_suffix("+wide") {
@@ -215,6 +218,21 @@ pub fn gen_case(c: &mut Chooser, op: &str, prop: &str) -> CaseSpec {
     } else {
         gen_case_full(c, op, prop, false, false, false)
     }
+}
+
+/// merge! of more members than a 16-bit counter can count: quiet listenable members (a few of them
+/// with one or two items), a sink that pulls once when greeted, a handful of driver steps
+fn gen_huge_merge(c: &mut Chooser) -> CaseSpec {
+    let n = 65_537 + c.choose(200);
+    let mut pspecs = vec![];
+    let mut lens = vec![];
+    let talkative: Vec<usize> = (0..4).map(|_| c.choose(n)).collect();
+    for i in 0..n {
+        pspecs.push(PuppetSpec { mode: Mode::Listen, late: false, fin: Fin::Never, burst: 0, eager_end: false, per_pull: 1, on_stop: None, feedback: None, on_pull: None });
+        lens.push(if talkative.contains(&i) { 1 + c.choose(2) } else { 0 });
+    }
+    let probe = ProbeSpec { policy: vec![if c.chance(1, 2) { React::Pull } else { React::Nothing }], rest: React::Nothing, pull_cap: 4, attach: None, poke: None, late_pulls: false, drop_talkback: false };
+    CaseSpec { topo: Topo::Merge(n), pspecs, lens, probe_specs: vec![probe], max_steps: 4 + c.choose(6), drain: false, credit_env: false, weights: [8, 5, 2, 1, 1, 4] }
 }
 
 pub fn gen_case_sized(c: &mut Chooser, op: &str, prop: &str, small: bool) -> CaseSpec {
@@ -236,7 +254,7 @@ pub fn gen_case_full(c: &mut Chooser, op: &str, prop: &str, small: bool, deep: b
         "merge" => {
             allow_late = true;
             if wide {
-                Topo::Merge(60 + c.choose(30))
+                Topo::Merge(60 + c.choose(90))
             } else {
                 Topo::Merge(if c.chance(1, 12) { 0 } else { 1 + c.choose(if small { 2 } else if deep { 6 } else { 4 }) })
             }
@@ -427,6 +445,19 @@ pub fn gen_case_full(c: &mut Chooser, op: &str, prop: &str, small: bool, deep: b
             }
         }
     }
+    if let Topo::Merge(n) = &topo {
+        // a member that reacts to its first Pull by making a late sibling greet (two members
+        // backed by one lazily opened connection)
+        if *n >= 2 && !credit && !indep && c.chance(1, 5) {
+            let late: Vec<usize> = (0..*n).filter(|j| pspecs[*j].late).collect();
+            if !late.is_empty() {
+                let j = late[c.choose(late.len())];
+                let others: Vec<usize> = (0..*n).filter(|i| *i != j).collect();
+                let i = others[c.choose(others.len())];
+                pspecs[i].on_pull = Some(j);
+            }
+        }
+    }
     if matches!(topo, Topo::ForEach) && !indep && !credit {
         // the callback feeds back into a listenable source: from inside `f`, at the k-th datum,
         // the source emits its next item (possibly its end)
@@ -502,7 +533,20 @@ pub fn gen_case_full(c: &mut Chooser, op: &str, prop: &str, small: bool, deep: b
             j = (i + 1) % n_probes;
         }
         let what = [React::Pull, React::Pull, React::Terminate, React::Error, React::PullTerminate][c.choose(5)];
-        probe_specs[i].poke = Some((c.choose(3) as u8, 1 + c.choose(4), j, what));
+        let trigger = c.choose(3) as u8;
+        let k = 1 + c.choose(4);
+        probe_specs[i].poke = Some((trigger, k, j, what));
+        if trigger == 1 && c.chance(1, 2) {
+            // a consumer that pulls for itself and for its partner in the same datum handler (a
+            // zip / round-robin over two subscriptions)
+            let mut policy = probe_specs[i].policy.clone();
+            let base = probe_specs[i].rest;
+            while policy.len() <= k {
+                policy.push(base);
+            }
+            policy[k] = React::Pull;
+            probe_specs[i].policy = policy;
+        }
     }
     if let (Topo::FromIter(_), "C15") = (&topo, prop) {
         // robustness clauses of C15: "signals completion exactly once", "does nothing once disposed"
